@@ -33,6 +33,7 @@ package vsched
 import (
 	"fmt"
 	"runtime"
+	"sort"
 	"sync"
 	"sync/atomic"
 	"time"
@@ -253,7 +254,13 @@ func (s *Sched) Step(tid int) (ev Event, done bool, ok bool) {
 
 // Abort lets every parked goroutine finish its call without further control.
 func (s *Sched) Abort() {
-	for _, g := range s.gs {
+	tids := make([]int, 0, len(s.gs))
+	for tid := range s.gs {
+		tids = append(tids, tid)
+	}
+	sort.Ints(tids) // deterministic order: replays must reproduce
+	for _, tid := range tids {
+		g := s.gs[tid]
 		if atomic.LoadInt32(&g.state) == stParked {
 			atomic.StoreInt32(&g.free, 1)
 			g.grant <- struct{}{}
